@@ -57,6 +57,7 @@ class Ctx:
         self.functions.add(fn)
 
     def violate(self, rule, fn, site, loc, msg, config=None, detail=None):
+        site = re.sub(r"@bb\d+", "", site)  # keys never contain block numbers or line numbers
         key = "%s:%s:%s" % (rule, fn, site)
         self.obligations.append(
             {
